@@ -144,9 +144,11 @@ def first_state_assignment(fbody, fname):
     m = re.search(r"\bstate\s*=\s*(state_\w+)\s*;", fbody)
     if not m:
         raise TranslateError("%s assigns no state" % fname)
-    # must be a top-level statement that comes before any return
-    r = re.search(r"\breturn\b", fbody)
-    if r and r.start() < m.start():
+    # must come before any return, except guards of the form  `if (<call>) return <value>;`  that pass an error on
+    # (the refusal of the callee: the state is already state_error and the line is recorded)
+    head = fbody[:m.start()]
+    head = re.sub(r"\bif\s*\(\s*\w+\s*\(\s*\w*\s*\)\s*\)\s*return\s+[^;]*;", " ", head)
+    if re.search(r"\breturn\b", head):
         raise TranslateError("%s returns before it assigns its state" % fname)
     return m.group(1)
 
